@@ -470,6 +470,21 @@ def body_end_to_end(case):
         with cut("compute()"):
             tab = compute(conf, verbose=False)
     labels = {mode}
+    if case.get("thr_next_to_event") is not None and len(tab) and "EFields" in tab.colnames:
+        # second pass with the same seed: the radio threshold is placed within +-0.3% .. +-1% of the (independently
+        # computed) SNR of one of the run's own events, so that a per-cent error of the pipeline's SNR flips a trigger
+        s0 = orad.snr(np.asarray(tab["EFields"], dtype=float), 30.0, 300.0, case["det"], 10, 1.8)
+        pos_ = np.where(s0 > 0)[0]
+        if pos_.size:
+            pick_, rel_ = case["thr_next_to_event"]
+            new_thr = float(s0[pos_[pick_ % pos_.size]] * (1.0 + rel_))
+            case = dict(case, snr_thr=new_thr)
+            conf.detector.radio.snr_threshold = new_thr
+            np.random.seed(case["seed"])
+            with dask.config.set(scheduler="synchronous"), quiet():
+                with cut("compute() [radio threshold next to an event's SNR]"):
+                    tab = compute(conf, verbose=False)
+            labels.add("radio_threshold_next_to_an_event")
     if len(tab) == 0 or "tauExitProb" not in tab.colnames:
         return labels | {"no_survivor"}
     k = len(tab)
@@ -609,6 +624,7 @@ SUBCHECKS = [
                 "optical": st.booleans(),
                 "pe_thr": st.sampled_from([10.0, 1.0, 100.0]),
                 "snr_thr": st.sampled_from([5.0, 0.5, 1e-3, 50.0]),
+                "thr_next_to_event": st.one_of(st.none(), st.tuples(st.integers(0, 1000), st.sampled_from([0.003, -0.003, 0.006, -0.006, 0.01, -0.01])).map(list)),
                 "cuts_on": st.booleans(),
                 "ra": st.floats(0.0, 2 * math.pi),
                 "dec": st.floats(-0.6, 0.6),
